@@ -39,6 +39,7 @@ class Console:
         self.requests = []        # (tick, cid, key)
         self.answered = 0
         self.beats = 0
+        self.outq = {}
 
     def on_write(self, cid, data):
         env = self.env
@@ -89,12 +90,49 @@ class Console:
                     return
                 delay = d
 
+        extra = sc.get("interleave")
+        if extra:
+            # frames a console may interleave with its answers: unknown type, unsolicited status, duplicate, foreign-addressed
+            pre = []
+            for what in extra:
+                if what == "unknown":
+                    pre.append(env.frame(0x7E, b"\x01\x02\x03"))
+                elif what == "duplicate":
+                    pre.append(frame)
+                elif what == "foreign":
+                    pre.append(env.frame(mid, payload, to=0xB7))
+                elif what == "unsolicited":
+                    k2 = [k for k in env.payloads if k[0] != 0x1F][0]
+                    pre.append(env.frame(*env.payloads[k2]))
+            frame = b"".join(pre) + frame
+        seg = sc.get("segment")
+
         def deliver():
             if not conn.conn_lost and not conn.eof_sent:
                 self.answered += 1
                 if is_beat:
                     env.hb_events.append(("resp", ticks(env.loop.time())))
-                conn.peer_send(frame)
+                if not seg:
+                    conn.peer_send(frame)
+                    return
+                # TCP may cut the byte stream anywhere (but never reorders it): the console's output is one queue per
+                # connection, delivered in pieces one loop pass apart
+                q = self.outq.setdefault(cid, bytearray())
+                idle = not q
+                q.extend(frame)
+
+                def pump(k=0):
+                    if conn.conn_lost or conn.eof_sent:
+                        q.clear()
+                        return
+                    n = seg[k % len(seg)]
+                    chunk = bytes(q[:n])
+                    del q[:n]
+                    conn.peer_send(chunk)
+                    if q:
+                        env.loop.call_soon(pump, k + 1)
+                if idle:
+                    pump()
         if delay:
             env.loop.call_later(delay * TICK, deliver)
         else:
@@ -173,8 +211,8 @@ class Env:
                 env.hb_events.append(("resetDone", ticks(env.loop.time())))
         hb._socket = SocketSeenByHeartbeat()
 
-    def frame(self, mid, payload):
-        hdr = self.Hdr(0xB0, 0x90 if mid == 0x1F else 0x80, 1, mid, len(payload))
+    def frame(self, mid, payload, to=0xB0):
+        hdr = self.Hdr(to, 0x90 if mid == 0x1F else 0x80, 1, mid, len(payload))
         eh = self.reg.header_encoder.encode(hdr)
         return bytes(eh.header_bytes) + payload + bytes(self.reg.checksum_calculator.calculate(eh.checksum_data + payload))
 
@@ -201,6 +239,7 @@ def run(gen, scenario, moment=None, reinit=False, idle=8000):
     logging.getLogger("asyncio").setLevel(logging.CRITICAL)
     env = Env(gen, scenario)
     loop = env.loop
+    loop.max_passes = 3_000_000
     obs = {"gen": gen, "moment": moment}
 
     async def patched_open(host, port, **kw):
